@@ -214,6 +214,18 @@ def d24():  # C14: a name containing the bare word `and` survives merge + split
     return len(back) == 3 and back[0].first == ["Harry", "and", "Fellowes"] and back[1].first == ["and"] and back[1].last == ["Smith"]
 
 
+def d25():  # C08: remove / replace act on the object that is passed, not on an equal one held earlier
+    from bibtexparser import Library
+    from bibtexparser.model import Entry, ExplicitComment, ImplicitComment
+    c1, c2, e = ImplicitComment("sep"), ImplicitComment("sep"), Entry("a", "a", [])
+    lib = Library([c1, e, c2])
+    lib.replace(c2, ExplicitComment("new"))
+    ok = lib.blocks[0] is c1 and isinstance(lib.blocks[2], ExplicitComment)
+    lib = Library([c1, e, c2])
+    lib.remove(c2)
+    return ok and lib.blocks[0] is c1 and lib.blocks[1] is e and len(lib.blocks) == 2
+
+
 if __name__ == "__main__":
     bad = 0
     for name, f in sorted(((k, v) for k, v in globals().items() if k[0] == "d" and k[1:].isdigit()), key=lambda kv: int(kv[0][1:])):
